@@ -290,6 +290,103 @@ void qx_harness(void)
                 clause='after Insert the real lookup finds the new key and every old key at its insertion position; a duplicate adds nothing')
 
 
+def grow_job(variant):
+    """bounded stand-in for 'tombstones are dropped on resize and the chains rebuilt': on the capacity-4 table of three keys, any key a is removed, then
+    (regrow) the fourth key is inserted (fills the last slot), and a is inserted again, which finds the table full and grows it through the real
+    expand/resize/allocate/generateHash; or (compress) the real Compress shrinks the table to its two live entries.  Afterwards every stored key is found and
+    key-to-index gives first-insertion order with the tombstone gone"""
+    FN_INS = HL + '_Insert__const_char_p_const_unsigned_int'
+    FN_REM = HT + '_Remove__const_char_p_unsigned_int_c'
+    FN_HAS = HT + '_Has__const_char_p_const_unsigned_int_c'
+    FN_GKI = HT + '_GetKeyIndex__unsigned_int_r_const_char_p_const_unsigned_int_c'
+    if variant == 'regrow':
+        body = '''
+  %(INS)s(&l, &qx_keys[3], 1u);
+  __CPROVER_assert(t->index_ == 4 && t->capacity_ == 4, "the fourth key fills the last slot, no growth yet");
+  %(INS)s(&l, &qx_keys[a], 1u);
+  __CPROVER_assert(t->index_ == 4 && t->capacity_ == 8, "growth doubles the capacity and drops the tombstone");
+  for (unsigned int k = 0; k < 4; k++) {
+    unsigned int idx;
+    unsigned int want = (k == a) ? 3u : (k == 3u) ? 2u : (k > a ? k - 1u : k);
+    __CPROVER_assert(%(HAS)s(t, &qx_keys[k], 1u), "every stored key is found after growth");
+    __CPROVER_assert(%(GKI)s(t, &idx, &qx_keys[k], 1u) && idx == want, "after growth the entries are in first-insertion order (re-inserted key last)");
+  }
+'''
+        roots_x = [QHL + '::Insert(const char *, const unsigned int)']
+        fn = FN_INS
+        decl = '  struct %(HL)s l;\n  struct %(HT)s *t = &l.qx_base;'
+        what = 'the fourth key is inserted and the removed key is inserted again, which grows the full table from 4 to 8 through the real expand/resize'
+    else:
+        body = '''
+  %(HT)s_Compress(t);
+  __CPROVER_assert(t->index_ == 2 && t->capacity_ == 2, "Compress keeps exactly the live entries");
+  __CPROVER_assert(!%(HAS)s(t, &qx_keys[a], 1u), "the removed key is not found after Compress");
+  for (unsigned int k = 0; k < 3; k++) if (k != a) {
+    unsigned int idx;
+    __CPROVER_assert(%(HAS)s(t, &qx_keys[k], 1u), "every live key is found after Compress");
+    __CPROVER_assert(%(GKI)s(t, &idx, &qx_keys[k], 1u) && idx == (k > a ? k - 1u : k), "after Compress the live entries keep their relative order");
+  }
+'''
+        roots_x = [QHT + '::Compress']
+        decl = '  struct %(HT)s tt;\n  struct %(HT)s *t = &tt;'
+        fn = HT + '_Compress'
+        what = 'the real Compress shrinks the table to its two live entries'
+    h = _table3() + ('''
+void qx_harness(void)
+{
+''' + decl + '''
+  qx_table3(t);
+  unsigned int a; __CPROVER_assume(a < 3);
+  %(REM)s(t, &qx_keys[a], 1u);
+''' + body + '''
+}
+''') % dict(HL=HL, HT=HT, INS=FN_INS, REM=FN_REM, HAS=FN_HAS, GKI=FN_GKI)
+    return dict(name='HashTable.remove-then-%s' % variant, unit=HUNIT, fn=fn,
+                roots=roots_x + [QHT + '::Remove(const char *, unsigned int)', QHT + '::Has(const char *, const unsigned int)', QHT + '::generateHash',
+                                 QHT + '::GetKeyIndex(unsigned int &, const char *, const unsigned int)'],
+                specs={}, mode='raw', harness=h, cuts=['StringUtils_Hash__char'], solver='cadical', timeout=900, objbits=9, canary=False,
+                cbmc_flags=['--unwind', '6', '--unwindset', 'Memory_SetToZero__unsigned_int.0:34,Memory_SetToZero__unsigned_int.1:34', '--unwinding-assertions'],
+                bounded='capacity 4, three stored one-unit keys with symbolic code units and symbolic hashes (all collision patterns); any stored key is removed, then ' + what,
+                must_have=['assertion'],
+                clause='a resize drops the tombstone and rebuilds the chains: every stored key is found and key-to-index gives first-insertion order')
+
+
+def clear_job():
+    """bounded stand-in: the real HashTable::Clear on the capacity-4 table of three keys, then the real HList::Insert of the fourth key and of any old key:
+    nothing stored before the Clear is found, the two new entries are found at positions 0 and 1 (no stale bucket head or link survives the Clear)"""
+    FN_INS = HL + '_Insert__const_char_p_const_unsigned_int'
+    FN_HAS = HT + '_Has__const_char_p_const_unsigned_int_c'
+    FN_GKI = HT + '_GetKeyIndex__unsigned_int_r_const_char_p_const_unsigned_int_c'
+    h = _table3() + '''
+/* HLItem_T<StringView<char>> has an implicit, trivial destructor (a pointer, a length, two integers): the extraction emits no body for it */
+void HLItem_T__StringView__char_dtor(%(HIT)s *self) { }
+void qx_harness(void)
+{
+  struct %(HL)s l;
+  struct %(HT)s *t = &l.qx_base;
+  qx_table3(t);
+  unsigned int a, idx; __CPROVER_assume(a < 3);
+  %(HT)s_Clear(t);
+  __CPROVER_assert(t->index_ == 0 && t->capacity_ == 4, "Clear empties the table and keeps its capacity");
+  for (unsigned int k = 0; k < 4; k++) __CPROVER_assert(t->hashTable_[k] == 0, "Clear leaves no bucket head behind");
+  %(INS)s(&l, &qx_keys[3], 1u);
+  %(INS)s(&l, &qx_keys[a], 1u);
+  __CPROVER_assert(t->index_ == 2 && t->capacity_ == 4, "two entries after two insertions");
+  __CPROVER_assert(%(GKI)s(t, &idx, &qx_keys[3], 1u) && idx == 0, "the first key inserted after Clear is found at position 0");
+  __CPROVER_assert(%(GKI)s(t, &idx, &qx_keys[a], 1u) && idx == 1, "the second key inserted after Clear is found at position 1");
+  for (unsigned int k = 0; k < 3; k++) if (k != a) __CPROVER_assert(!%(HAS)s(t, &qx_keys[k], 1u), "a key stored before Clear and not stored again is not found");
+}
+''' % dict(HL=HL, HT=HT, HIT=HIT, INS=FN_INS, HAS=FN_HAS, GKI=FN_GKI)
+    return dict(name='HashTable.Clear.insert-after-clear', unit=HUNIT, fn=HT + '_Clear',
+                roots=[QHT + '::Clear', QHL + '::Insert(const char *, const unsigned int)', QHT + '::Has(const char *, const unsigned int)', QHT + '::generateHash',
+                       QHT + '::GetKeyIndex(unsigned int &, const char *, const unsigned int)'],
+                specs={}, mode='raw', harness=h, cuts=['StringUtils_Hash__char'], solver='cadical', timeout=900, objbits=9, canary=False,
+                cbmc_flags=['--unwind', '6', '--unwindset', 'Memory_SetToZero__unsigned_int.0:34,Memory_SetToZero__unsigned_int.1:34', '--unwinding-assertions'],
+                bounded='capacity 4, three stored one-unit keys with symbolic code units and symbolic hashes (all collision patterns); Clear, then the fourth key and any old key are inserted',
+                must_have=['assertion'],
+                clause='Clear leaves no bucket head behind: keys stored before it are not found, keys inserted after it are found at their insertion positions')
+
+
 _jobs_c13 = jobs
 
 
@@ -297,4 +394,4 @@ def jobs(tier):
     # the bounded map-model scenarios below do not fit: CBMC runs out of memory (14 GB) while converting the SSA of even one five-operation
     # scenario of the real HashTable code (quicksort recursion, chain walks, re-hash).  Kept for the record, not run.
     unfinished = [map_model_job(n, ops) for n, ops in SCENARIOS.items()]
-    return _jobs_c13(tier) + [generate_hash_job(c) for c in (1, 2, 4, 8)] + [rename_job(), remove_job(), insert_job()]
+    return _jobs_c13(tier) + [generate_hash_job(c) for c in (1, 2, 4, 8)] + [rename_job(), remove_job(), insert_job(), grow_job('regrow'), clear_job()]
